@@ -746,6 +746,33 @@ class Analysis:
             if cur['op'] not in one:
                 return False
 
+    def check_handoff(self):
+        """Nodes that forward one element at a time (the worker of map_async, the drain loops of buffer / delay /
+        latest / timed_window) wait for their consumers before they take the next element: that wait is what
+        carries backpressure through the node and what bounds the data in flight below it."""
+        from .build import SERIAL_OPS
+        V = []
+        if getattr(getattr(self.res, 'rec', None), 'overloaded', False):
+            return V
+        acc_all = self.res.ctx.accepted
+        for nid in self.order:
+            if self.spec[nid]['op'] not in SERIAL_OPS:
+                continue
+            outs = self.outs[nid]
+            for k in range(len(outs) - 1):
+                o, o2 = outs[k], outs[k + 1]
+                for kid in o.kids:
+                    if getattr(kid, 'retkind', None) != 'aw':
+                        continue
+                    a = acc_all.get(kid.node, {}).get(kid.idx)
+                    if a is None or a > o2.seq:
+                        V.append(Violation('C03', 'C03.handoff', o2.seq,
+                                           '%s %d handed on %r at t=%g while its consumer %d had not finished accepting the previous element %r (handed on at t=%g)'
+                                           % (self.spec[nid]['op'], nid, o2.value, o2.t, kid.node, o.value, o.t),
+                                           node_op=self.spec[nid]['op']))
+                        return V
+        return V
+
     def check_bounds(self):
         """accepted (the awaitable handed back by update is done) minus handed on"""
         V = []
